@@ -155,7 +155,7 @@ func (e *c03env) accepted(v c03vp, proposals map[string]util.Hash) (bool, string
 		w := isaac.NewINITStuckVoteproof(e.point)
 		w.SetSignFacts(sfs)
 		w.SetExpels(expels)
-		w.Finish() // no majority, threshold 100
+		w.Finish()             // no majority, threshold 100
 		if v.Majority != "-" { // a crafted one: majority put back after Finish
 			w.SetMajority(fact(v.Majority))
 		}
